@@ -45,6 +45,17 @@ fn main() {
     for f in std::fs::read_dir(&cdir).expect("c dir") {
         println!("cargo::rerun-if-changed={}", f.unwrap().path().display());
     }
+    // the Windows-GNU assembly flavour (Win64 calling convention), assembled for ELF: `.section .rdata`
+    // becomes `.section .rodata`; called from the harness through a Win64 trampoline
+    {
+        let mut k = base("win", &cdir);
+        k.define("rdata", Some("rodata"));
+        k.flag("-mavx512f").flag("-mavx512vl");
+        for f in ["blake3_sse2_x86-64_windows_gnu.S", "blake3_sse41_x86-64_windows_gnu.S", "blake3_avx2_x86-64_windows_gnu.S", "blake3_avx512_x86-64_windows_gnu.S"] {
+            k.file(cdir.join(f));
+        }
+        k.compile("b3c_win_kernels");
+    }
     for prefix in ["ca", "ci"] {
         let mut core = base(prefix, &cdir);
         core.flag("-std=c11");
